@@ -91,3 +91,191 @@ proof fn lemma_dot_inf_nan()
     reveal_strlit(".inf"); reveal_strlit(".nan");
     is_ascii_chars_encode_utf8(".inf"@); is_ascii_chars_encode_utf8(".nan"@);
 }
+
+// ======================= reference semantics of the expression language (relational) =======================
+// r_X(b, i0, i1, mode, tag, depth, e): "the text b[i0..i1] is an X and evaluates to e = (value, used_unit, saw_plain)"
+// with the standard precedence: expr = term (('+'|'-') term)*, term = unary (('*'|'/') unary)*, both LEFT-associative,
+// unary = ('+'|'-')* primary, primary = '(' expr ')' | number | constant | deg(expr) | rad(expr).
+// Float operations are the uninterpreted sp_f*; every recursive reference is to a strictly smaller interval (or the
+// same interval at a lower rank), which is what `decreases` checks.
+
+spec fn skip_ws_pos(b: Seq<u8>, i: int) -> int
+    decreases b.len() - i,
+{
+    if 0 <= i < b.len() && (b[i] == 0x20 || b[i] == 0x09 || b[i] == 0x0a || b[i] == 0x0d) { skip_ws_pos(b, i + 1) } else { i }
+}
+
+proof fn lemma_skip_ws_pos(b: Seq<u8>, i: int)
+    requires 0 <= i <= b.len(),
+    ensures i <= skip_ws_pos(b, i) <= b.len(),
+        skip_ws_pos(b, i) < b.len() ==> !({ let c = b[skip_ws_pos(b, i)]; c == 0x20 || c == 0x09 || c == 0x0a || c == 0x0d }),
+        skip_ws_pos(b, skip_ws_pos(b, i)) == skip_ws_pos(b, i),
+    decreases b.len() - i,
+{
+    if i < b.len() && (b[i] == 0x20 || b[i] == 0x09 || b[i] == 0x0a || b[i] == 0x0d) { lemma_skip_ws_pos(b, i + 1); }
+}
+
+type Ev3 = (f64, bool, bool);
+
+/// trigger carriers for the existential witnesses below (always true; opaque so that they stay in the terms)
+#[verifier::opaque] spec fn wit(j: int, e: Ev3) -> bool { true }
+#[verifier::opaque] spec fn wit1(e: Ev3) -> bool { true }
+#[verifier::opaque] spec fn witp(j: int) -> bool { true }
+
+/// a number token (what parse_number_or_special guarantees)
+spec fn r_number(b: Seq<u8>, i0: int, i1: int, e: Ev3) -> bool {
+    ||| (kw_at(b, i0, seq![0x2eu8, 0x69, 0x6e, 0x66]) && i1 == i0 + 4 && e == (sp_inf(), false, true))
+    ||| (kw_at(b, i0, seq![0x2eu8, 0x6e, 0x61, 0x6e]) && i1 == i0 + 4 && e == (sp_nan(), false, true))
+    ||| (e.1 && !e.2 && i1 > i0)
+    ||| (!e.1 && e.2 && i1 > i0 && sp_f64_parse(strip_us(b.subrange(i0, i1))) == Some(e.0))
+}
+
+spec fn ident_end(b: Seq<u8>, i: int) -> int
+    decreases b.len() - i,
+{
+    if 0 <= i < b.len() && (sp_is_alpha(b[i]) || sp_is_digit(b[i]) || b[i] == 0x5f) { ident_end(b, i + 1) } else { i }
+}
+
+spec fn name_is(b: Seq<u8>, i: int, e: int, kw: Seq<u8>) -> bool { sp_eq_ci(b.subrange(i, e), kw) }
+
+spec fn r_expr(b: Seq<u8>, i0: int, i1: int, m: bool, t: SfTag, d: int, e: Ev3) -> bool
+    decreases i1 - i0, 9int,
+{
+    exists|j: int, e1: Ev3| #[trigger] wit(j, e1) && i0 <= j <= i1 && r_term(b, i0, j, m, t, d, e1) && r_expr_tail(b, j, i1, m, t, d, e1, e)
+}
+
+spec fn r_expr_tail(b: Seq<u8>, j: int, i1: int, m: bool, t: SfTag, d: int, acc: Ev3, e: Ev3) -> bool
+    decreases i1 - j, 8int,
+{
+    let i = skip_ws_pos(b, j);
+    if j <= i < b.len() && i < i1 && b[i] == 0x2b {
+        exists|k: int, e2: Ev3| #[trigger] wit(k, e2) && i + 1 <= k <= i1 && r_term(b, i + 1, k, m, t, d, e2)
+            && r_expr_tail(b, k, i1, m, t, d, (sp_fadd(acc.0, e2.0), acc.1 || e2.1, acc.2 || e2.2), e)
+    } else if j <= i < b.len() && i < i1 && b[i] == 0x2d {
+        exists|k: int, e2: Ev3| #[trigger] wit(k, e2) && i + 1 <= k <= i1 && r_term(b, i + 1, k, m, t, d, e2)
+            && r_expr_tail(b, k, i1, m, t, d, (sp_fsub(acc.0, e2.0), acc.1 || e2.1, acc.2 || e2.2), e)
+    } else {
+        i1 == i && e == acc && !(i < b.len() && (b[i] == 0x2b || b[i] == 0x2d))
+    }
+}
+
+spec fn r_term(b: Seq<u8>, i0: int, i1: int, m: bool, t: SfTag, d: int, e: Ev3) -> bool
+    decreases i1 - i0, 7int,
+{
+    exists|j: int, e1: Ev3| #[trigger] wit(j, e1) && i0 <= j <= i1 && r_unary(b, i0, j, m, t, d, e1) && r_term_tail(b, j, i1, m, t, d, e1, e)
+}
+
+spec fn r_term_tail(b: Seq<u8>, j: int, i1: int, m: bool, t: SfTag, d: int, acc: Ev3, e: Ev3) -> bool
+    decreases i1 - j, 6int,
+{
+    let i = skip_ws_pos(b, j);
+    if j <= i < b.len() && i < i1 && b[i] == 0x2a {
+        exists|k: int, e2: Ev3| #[trigger] wit(k, e2) && i + 1 <= k <= i1 && r_unary(b, i + 1, k, m, t, d, e2)
+            && r_term_tail(b, k, i1, m, t, d, (sp_fmul(acc.0, e2.0), acc.1 || e2.1, acc.2 || e2.2), e)
+    } else if j <= i < b.len() && i < i1 && b[i] == 0x2f {
+        exists|k: int, e2: Ev3| #[trigger] wit(k, e2) && i + 1 <= k <= i1 && r_unary(b, i + 1, k, m, t, d, e2)
+            && r_term_tail(b, k, i1, m, t, d, (sp_fdiv(acc.0, e2.0), acc.1 || e2.1, acc.2 || e2.2), e)
+    } else {
+        i1 == i && e == acc && !(i < b.len() && (b[i] == 0x2a || b[i] == 0x2f))
+    }
+}
+
+spec fn r_unary(b: Seq<u8>, i0: int, i1: int, m: bool, t: SfTag, d: int, e: Ev3) -> bool
+    decreases i1 - i0, 5int,
+{
+    let i = skip_ws_pos(b, i0);
+    i0 <= i <= i1 && r_signs(b, i, i1, m, t, d, 1.0f64, e)
+}
+
+spec fn r_signs(b: Seq<u8>, i: int, i1: int, m: bool, t: SfTag, d: int, sign: f64, e: Ev3) -> bool
+    decreases i1 - i, 4int,
+{
+    if 0 <= i < b.len() && i < i1 && b[i] == 0x2b { r_signs(b, i + 1, i1, m, t, d, sign, e) }
+    else if 0 <= i < b.len() && i < i1 && b[i] == 0x2d { r_signs(b, i + 1, i1, m, t, d, sp_fneg(sign), e) }
+    else { exists|ep: Ev3| #[trigger] wit1(ep) && r_primary(b, i, i1, m, t, d, ep) && e == (sp_fmul(sign, ep.0), ep.1, ep.2) }
+}
+
+spec fn r_primary(b: Seq<u8>, i0: int, i1: int, m: bool, t: SfTag, d: int, e: Ev3) -> bool
+    decreases i1 - i0, 3int,
+{
+    let i = skip_ws_pos(b, i0);
+    i0 <= i < b.len() && i < i1 && (
+        if b[i] == 0x28 {
+            d < 256 && exists|j: int| #[trigger] witp(j) && i + 1 <= j < i1 && r_expr(b, i + 1, j, m, t, d + 1, e)
+                && ({ let c = skip_ws_pos(b, j); j <= c < b.len() && b[c] == 0x29 && i1 == c + 1 })
+        } else if sp_is_digit(b[i]) || b[i] == 0x2e {
+            r_number(b, i, i1, e)
+        } else if sp_is_alpha(b[i]) || b[i] == 0x5f {
+            r_ident(b, i, i1, m, t, d, e)
+        } else { false })
+}
+
+spec fn r_ident(b: Seq<u8>, i: int, i1: int, m: bool, t: SfTag, d: int, e: Ev3) -> bool
+    decreases i1 - i, 2int,
+{
+    let ie = ident_end(b, i);
+    if name_is(b, i, ie, seq![0x70u8, 0x69]) { i1 == ie && e == (sp_pi(), false, true) }
+    else if name_is(b, i, ie, seq![0x74u8, 0x61, 0x75]) { i1 == ie && e == (sp_fmul(2.0f64, sp_pi()), false, true) }
+    else if name_is(b, i, ie, seq![0x69u8, 0x6e, 0x66]) { i1 == ie && e == (sp_inf(), false, true) }
+    else if name_is(b, i, ie, seq![0x6eu8, 0x61, 0x6e]) { i1 == ie && e == (sp_nan(), false, true) }
+    else if name_is(b, i, ie, seq![0x64u8, 0x65, 0x67]) || name_is(b, i, ie, seq![0x72u8, 0x61, 0x64]) {
+        let p = skip_ws_pos(b, ie);
+        i < ie <= p < b.len() && b[p] == 0x28 && d < 256
+        && exists|j: int, ei: Ev3| #[trigger] wit(j, ei) && p + 1 <= j < i1 && r_expr(b, p + 1, j, false, t, d + 1, ei)
+            && ({ let c = skip_ws_pos(b, j); j <= c < b.len() && b[c] == 0x29 && i1 == c + 1 })
+            && e == (if name_is(b, i, ie, seq![0x64u8, 0x65, 0x67]) { sp_fmul(ei.0, sp_deg2rad()) } else { ei.0 }, true, false)
+    } else { false }
+}
+
+proof fn lemma_ident_literals()
+    ensures "pi".spec_bytes() =~= seq![0x70u8, 0x69], "tau".spec_bytes() =~= seq![0x74u8, 0x61, 0x75],
+        "inf".spec_bytes() =~= seq![0x69u8, 0x6e, 0x66], "nan".spec_bytes() =~= seq![0x6eu8, 0x61, 0x6e],
+        "deg".spec_bytes() =~= seq![0x64u8, 0x65, 0x67], "rad".spec_bytes() =~= seq![0x72u8, 0x61, 0x64],
+{
+    reveal_strlit("pi"); reveal_strlit("tau"); reveal_strlit("inf"); reveal_strlit("nan"); reveal_strlit("deg"); reveal_strlit("rad");
+    is_ascii_chars_encode_utf8("pi"@); is_ascii_chars_encode_utf8("tau"@); is_ascii_chars_encode_utf8("inf"@);
+    is_ascii_chars_encode_utf8("nan"@); is_ascii_chars_encode_utf8("deg"@); is_ascii_chars_encode_utf8("rad"@);
+}
+
+proof fn lemma_expr_tail_bound(b: Seq<u8>, j: int, i1: int, m: bool, t: SfTag, d: int, acc: Ev3, e: Ev3)
+    requires r_expr_tail(b, j, i1, m, t, d, acc, e), 0 <= j <= b.len(),
+    ensures j <= i1,
+    decreases i1 - j,
+{
+    lemma_skip_ws_pos(b, j);
+}
+
+proof fn lemma_term_tail_bound(b: Seq<u8>, j: int, i1: int, m: bool, t: SfTag, d: int, acc: Ev3, e: Ev3)
+    requires r_term_tail(b, j, i1, m, t, d, acc, e), 0 <= j <= b.len(),
+    ensures j <= i1,
+    decreases i1 - j,
+{
+    lemma_skip_ws_pos(b, j);
+}
+
+proof fn lemma_signs_bound(b: Seq<u8>, i: int, i1: int, m: bool, t: SfTag, d: int, sign: f64, e: Ev3)
+    requires r_signs(b, i, i1, m, t, d, sign, e), 0 <= i <= b.len(),
+    ensures i < i1,
+{
+    lemma_skip_ws_pos(b, i);
+    if 0 <= i < b.len() && i < i1 && (b[i] == 0x2b || b[i] == 0x2d) {
+    } else {
+        let ep = choose|ep: Ev3| #[trigger] wit1(ep) && r_primary(b, i, i1, m, t, d, ep) && e == (sp_fmul(sign, ep.0), ep.1, ep.2);
+        assert(r_primary(b, i, i1, m, t, d, ep));
+    }
+}
+
+/// the tail relations only look at the text from the first non-blank position on
+proof fn lemma_expr_tail_skip(b: Seq<u8>, j: int, i1: int, m: bool, t: SfTag, d: int, acc: Ev3, e: Ev3)
+    requires 0 <= j <= b.len(), r_expr_tail(b, skip_ws_pos(b, j), i1, m, t, d, acc, e),
+    ensures r_expr_tail(b, j, i1, m, t, d, acc, e),
+{
+    lemma_skip_ws_pos(b, j);
+}
+
+proof fn lemma_term_tail_skip(b: Seq<u8>, j: int, i1: int, m: bool, t: SfTag, d: int, acc: Ev3, e: Ev3)
+    requires 0 <= j <= b.len(), r_term_tail(b, skip_ws_pos(b, j), i1, m, t, d, acc, e),
+    ensures r_term_tail(b, j, i1, m, t, d, acc, e),
+{
+    lemma_skip_ws_pos(b, j);
+}
